@@ -761,8 +761,10 @@ class H2Connection:
             "Send headers on stream ID %d", stream_id
         )
 
-        # Check we can open the stream.
-        if stream_id not in self.streams:
+        # Check we can open the stream. A stream we promised only starts to
+        # count against the peer's limit now that it leaves the reserved state.
+        if (stream_id not in self.streams or
+                self.streams[stream_id].reserved):
             max_open_streams = self.remote_settings.max_concurrent_streams
             if (self.open_outbound_streams + 1) > max_open_streams:
                 raise TooManyStreamsError(
@@ -1555,8 +1557,10 @@ class H2Connection:
         Receive a headers frame on the connection.
         """
         # If necessary, check we can open the stream. Also validate that the
-        # stream ID is valid.
-        if frame.stream_id not in self.streams:
+        # stream ID is valid. A promised stream only starts to count against
+        # our limit now that it leaves the reserved state.
+        if (frame.stream_id not in self.streams or
+                self.streams[frame.stream_id].reserved):
             max_open_streams = self.local_settings.max_concurrent_streams
             if (self.open_inbound_streams + 1) > max_open_streams:
                 raise TooManyStreamsError(
